@@ -219,7 +219,7 @@ Proof. intros H r Hin Hp. rewrite forallb_forall in H. specialize (H r Hin). cbv
 
 Definition owner_flow : Prop :=
   (* ClassFile::remap hands `&self.name` — its own name BEFORE remapping — to its fields and methods *)
-  (forall r, In r rows -> pos_in [("ClassFile", "", "fields"); ("ClassFile", "", "methods")] r = true ->
+  (forall r, In r rows -> pos_in [("ClassFile", "", "fields"); ("ClassFile", "", "methods"); ("ClassFile", "", "record_components")] r = true ->
              r_act r = Remapped (MRec CSelfName)) /\
   (exists r, In r rows /\ at_pos r "ClassFile" "" "fields" = true) /\
   (exists r, In r rows /\ at_pos r "ClassFile" "" "methods" = true) /\
@@ -234,10 +234,15 @@ Definition owner_flow : Prop :=
   (forall r, In r rows -> at_pos r "Field" "" "descriptor" = true -> r_act r = Remapped (MDeclDesc DField)) /\
   (forall r, In r rows -> at_pos r "Method" "" "name" = true -> r_act r = Remapped (MDeclName DMethod)) /\
   (forall r, In r rows -> at_pos r "Method" "" "descriptor" = true -> r_act r = Remapped (MDeclDesc DMethod)) /\
+  (* record components: the field of the component's name in the record class *)
+  (forall r, In r rows -> at_pos r "RecordComponent" "" "name" = true -> r_act r = Remapped (MDeclName DRecord)) /\
+  (forall r, In r rows -> at_pos r "RecordComponent" "" "descriptor" = true -> r_act r = Remapped (MDeclDesc DRecord)) /\
   (forall r, In r rows -> is_decl_act r = true ->
-             pos_in [("Field", "", "name"); ("Field", "", "descriptor"); ("Method", "", "name"); ("Method", "", "descriptor")] r = true) /\
-  (* the impls of Field and Method receive the class name *)
+             pos_in [("Field", "", "name"); ("Field", "", "descriptor"); ("Method", "", "name"); ("Method", "", "descriptor");
+                     ("RecordComponent", "", "name"); ("RecordComponent", "", "descriptor")] r = true) /\
+  (* the impls of Field, Method and RecordComponent receive the class name *)
   find_impl "Field" = Some (IFields true) /\ find_impl "Method" = Some (IFields true) /\
+  find_impl "RecordComponent" = Some (IFields true) /\
   (* member references: the remapper's *_ref methods, which take the owner from the reference *)
   find_impl "FieldRef" = Some (ILeaf MFieldRef) /\ find_impl "MethodRef" = Some (ILeaf MMethodRef).
 
@@ -270,7 +275,12 @@ Proof.
     apply (forallb_if (fun r => at_pos r "Method" "" "name") (act_is (Remapped (MDeclName DMethod)))). vm_compute. reflexivity.
   - intros r Hin Hp. apply action_eqb_eq. revert r Hin Hp.
     apply (forallb_if (fun r => at_pos r "Method" "" "descriptor") (act_is (Remapped (MDeclDesc DMethod)))). vm_compute. reflexivity.
+  - intros r Hin Hp. apply action_eqb_eq. revert r Hin Hp.
+    apply (forallb_if (fun r => at_pos r "RecordComponent" "" "name") (act_is (Remapped (MDeclName DRecord)))). vm_compute. reflexivity.
+  - intros r Hin Hp. apply action_eqb_eq. revert r Hin Hp.
+    apply (forallb_if (fun r => at_pos r "RecordComponent" "" "descriptor") (act_is (Remapped (MDeclDesc DRecord)))). vm_compute. reflexivity.
   - apply (forallb_if is_decl_act). vm_compute. reflexivity.
+  - apply impl_opt_eqb_eq. vm_compute. reflexivity.
   - apply impl_opt_eqb_eq. vm_compute. reflexivity.
   - apply impl_opt_eqb_eq. vm_compute. reflexivity.
   - apply impl_opt_eqb_eq. vm_compute. reflexivity.
@@ -361,6 +371,10 @@ Definition member_owner_stmt : Prop :=
                             map_method R this n d = Ok (n', d')) /\
   (forall R this n d n' d', remap_at R (MDeclDesc DMethod) this (VDecl n d) = Ok (VDecl n' d') ->
                             map_method R this n d = Ok (n', d')) /\
+  (* a record component is asked about as the field of its name in the record class; a name that is no
+     field name is an error *)
+  (forall R this n d n' d', remap_at R (MDeclName DRecord) this (VDecl n d) = Ok (VDecl n' d') ->
+                            map_field R this n d = Ok (n', d') /\ C18.Model.is_valid_unqualified_name n = true) /\
   (* member references with the owner they name — never with the class they stand in *)
   (forall R this c n d c' n' d', remap_at R MFieldRef this (VRef (c, n, d)) = Ok (VRef (c', n', d')) ->
                                  map_field R c n d = Ok (n', d') /\ map_class R c = Ok c') /\
@@ -388,6 +402,8 @@ Proof.
     intros [= -> ->]. reflexivity.
   - intros R this n d n' d'. cbn [remap_at]. destruct (map_method R this n d) as [[a b]|]; [|discriminate].
     intros [= -> ->]. reflexivity.
+  - intros R this n d n' d'. cbn [remap_at]. destruct (C18.Model.is_valid_unqualified_name n); [|discriminate].
+    destruct (map_field R this n d) as [[a b]|]; [|discriminate]. intros [= -> ->]. split; reflexivity.
   - intros R this c n d c' n' d'. cbn [remap_at]. unfold map_field_ref.
     destruct (map_field R c n d) as [[a b]|]; [|discriminate].
     destruct (map_class R c) as [x|]; [|discriminate]. intros [= -> -> ->]. split; reflexivity.
@@ -448,9 +464,9 @@ Proof.
     intros [= ->]. exact (map_class_answer _ _ _ E).
   - intros this c c' Ha. cbn [remap_at]. unfold map_class_any. rewrite Ha.
     destruct (map_class R c) as [x|] eqn:E; [|discriminate]. intros [= ->]. exact (map_class_answer _ _ _ E).
-  - intros this c n d c' n' d' H. destruct member_owner as (_ & _ & _ & _ & Hf & _).
+  - intros this c n d c' n' d' H. destruct member_owner as (_ & _ & _ & _ & _ & Hf & _).
     destruct (Hf _ _ _ _ _ _ _ _ H) as [Hm _]. exact (map_member_answer _ _ _ _ _ _ _ Hm).
-  - intros this c n d c' n' d' Ha H. destruct member_owner as (_ & _ & _ & _ & _ & Hm & _).
+  - intros this c n d c' n' d' Ha H. destruct member_owner as (_ & _ & _ & _ & _ & _ & Hm & _).
     destruct (Hm _ _ _ _ _ _ _ _ Ha H) as [Hm' _]. exact (map_member_answer _ _ _ _ _ _ _ Hm').
   - intros this n d n' d' H. destruct member_owner as (Hf & _).
     exact (map_member_answer _ _ _ _ _ _ _ (Hf _ _ _ _ _ _ H)).
